@@ -127,6 +127,7 @@ type world struct {
 	modelHist     map[specqbft.Height]*saveRec // historical instances (full node)
 	hist          []string
 	certRounds    map[specqbft.Height]map[specqbft.Round]bool // rounds of the certificates processed per height
+	firstSeenLate map[specqbft.Height]bool                    // height -> its first certificate was processed (possibly cut short by a crash) while a higher height was already started
 	decidedLate   map[specqbft.Height]bool                    // height learned as decided (in a completed step) -> learned while a higher height was already started
 	stepDecided   map[specqbft.Height]bool                    // learned in the current (not yet completed) step
 	violated      bool
@@ -355,14 +356,23 @@ func (w *world) restart(why string) {
 		}
 	}
 	if top >= 0 && (int64(w.ctrl.Height) < top || (stored == nil)) {
-		allLate := true
+		allLate, viaHistory := true, false
 		for h, late := range w.decidedLate {
 			if int64(h) > int64(w.ctrl.Height) && !late {
-				allLate = false
+				if w.firstSeenLate[h] && w.fullNode {
+					// S15 once removed: the certificate was first written (as a historical record only) while a higher height was
+					// started, the node crashed, and when the certificate came again the full node answered it from that record
+					// without storing anything as highest
+					viaHistory = true
+				} else {
+					allLate = false
+				}
 			}
 		}
 		sig := "other"
-		if allLate && stored != nil {
+		if allLate && viaHistory {
+			sig = "decided-first-written-below-a-started-height-then-answered-from-the-historical-record"
+		} else if allLate && stored != nil {
 			sig = "decided-learned-for-a-height-below-the-one-already-started-is-not-stored-as-highest"
 		} else if allLate {
 			sig = "decided-learned-below-started-height-and-nothing-stored"
@@ -431,6 +441,12 @@ func (w *world) doCert(h specqbft.Height, round specqbft.Round, signers []specty
 	w.certRounds[h][round] = true
 	m := w.cert(h, round, w.value(phase0.Slot(h), variant), signers)
 	heightBefore := w.ctrl.Height
+	if w.firstSeenLate == nil {
+		w.firstSeenLate = map[specqbft.Height]bool{}
+	}
+	if _, ok := w.firstSeenLate[h]; !ok {
+		w.firstSeenLate[h] = heightBefore > h
+	}
 	err := w.run.ProcessConsensus(w.lg, m)
 	w.hist = append(w.hist, fmt.Sprintf("decided certificate h%d r%d signers %v variant %d -> err=%v (controller height %d)", h, round, signers, variant, err, w.ctrl.Height))
 	// the controller learned the height as decided if it now holds a decided instance for it
@@ -438,6 +454,13 @@ func (w *world) doCert(h specqbft.Height, round specqbft.Round, signers []specty
 		w.learned(h)
 		w.acceptedCerts++
 		w.noteDecided(h, heightBefore > h)
+	} else if err == nil && len(signers) >= w.n-(w.n-1)/3 && w.ctrl.Height >= h {
+		// the certificate was processed without error and the controller stands at (or above) its height, although it holds no
+		// instance object for it (a full node answers from its historical records): the height is learned as decided all the same
+		w.learned(h)
+		w.acceptedCerts++
+		w.noteDecided(h, heightBefore > h)
+		w.c.Count("certificates_learned_without_a_stored_instance_object", 1)
 	}
 }
 
@@ -549,6 +572,12 @@ func genPlan(c *evid.Case, n int) []stepPlan {
 
 // exec runs plan; crashAt >= 0 arms a crash at that global operation index (mode m). Returns ops used.
 func (w *world) exec(plan []stepPlan, crashAt int, m faultdb.Mode) int {
+	return w.execR(plan, crashAt, m, false)
+}
+
+// execR: with redeliver, a certificate whose processing was cut short by the crash is delivered again after the restart (the
+// network re-broadcasts decided messages) and the node restarts once more before the history goes on.
+func (w *world) execR(plan []stepPlan, crashAt int, m faultdb.Mode, redeliver bool) int {
 	w.inj.Enable(true)
 	if crashAt >= 0 {
 		w.inj.Arm(crashAt, m)
@@ -578,6 +607,15 @@ func (w *world) exec(plan []stepPlan, crashAt int, m faultdb.Mode) int {
 			w.settle(name, true)
 			w.restart("after crash")
 			w.c.Distinct("crash_points", evid.Hash(crash.String()))
+			if redeliver && st.Kind == stCert {
+				w.hist = append(w.hist, "the same certificate is delivered again")
+				w.doCert(specqbft.Height(st.Slot), st.Round, st.Signers, st.Variant)
+				w.settle(name+" (redelivered)", false)
+				if !w.violated {
+					w.restart("after the redelivery")
+				}
+				w.c.Count("certificates_redelivered_after_crash", 1)
+			}
 			continue
 		}
 		w.settle(name, false)
@@ -613,7 +651,7 @@ func runHistory(c *evid.Case) {
 		}
 	}
 	w := newWorld(c, e, n, full)
-	w.exec(plan, crashAt, mode)
+	w.execR(plan, crashAt, mode, c.Rng.Intn(2) == 0)
 	w.finish(plan)
 	if c.Index == 0 && c.Idx < 2 {
 		c.Sample(map[string]any{"N": n, "full_node": full, "history": w.hist})
@@ -633,12 +671,14 @@ func runCrashEnum(c *evid.Case) {
 	c.Count("crashenum_points", int64(k))
 	for at := 0; at < k; at++ {
 		for _, m := range []faultdb.Mode{faultdb.CrashBefore, faultdb.CrashAfter} {
-			w := newWorld(c, e, n, full)
-			w.exec(plan, at, m)
-			w.finish(plan)
-			c.Count("crashenum_runs", 1)
-			if w.violated {
-				return
+			for _, redeliver := range []bool{false, true} {
+				w := newWorld(c, e, n, full)
+				w.execR(plan, at, m, redeliver)
+				w.finish(plan)
+				c.Count("crashenum_runs", 1)
+				if w.violated {
+					return
+				}
 			}
 		}
 	}
